@@ -50,7 +50,7 @@ class N(HasTraits):
     value = Int()
     f = Instance(HasTraits, tag=True)
     g = Instance(HasTraits, tag=True)
-    kids = List(Instance(HasTraits))
+    kids = List(Instance(HasTraits), tagc=True)
     m = Dict(Str, Instance(HasTraits))
     s = Set(Instance(HasTraits))
 
@@ -67,6 +67,8 @@ def build_expr(g):
         e = X.anytrait(notify=bool(notify))
     elif f == "tag":
         e = X.metadata("tag", notify=bool(notify))
+    elif f == "tagc":
+        e = X.metadata("tagc", notify=bool(notify))
     elif f == "match_fg":
         e = X.match(match_fg, notify=bool(notify))
     elif f == "match_vk":
@@ -318,7 +320,9 @@ class World:
                 else:
                     raise ValueError(meth)
         elif k == "AddTrait":
-            if op[2] == 13:       # x2 carries the metadata the "tag" filter looks for
+            if op[2] == 0:
+                self.pool[op[1]].add_trait("value", Int())
+            elif op[2] in (1, 2, 13):   # f, g and x2 carry the metadata the "tag" filter looks for
                 self.pool[op[1]].add_trait(FN[op[2]], Instance(HasTraits, tag=True))
             else:
                 self.pool[op[1]].add_trait(FN[op[2]], Instance(HasTraits))
